@@ -61,7 +61,7 @@ def check_string(acc, src, origin):
 def shards(tier):
     out = [dict(s, kind='sigma') for s in strings.shards('quick' if tier == 'quick' else 'thorough')]
     plan = 'small-quick' if tier == 'quick' else 'small-thorough'
-    out += [dict(s, kind='ws', tier=tier) for s in layers.shards(plan, ())]
+    out += [dict(s, kind='ws', tier=tier) for s in layers.shards(plan, ('args',))]
     return out
 
 
